@@ -1300,11 +1300,10 @@ impl CodeGenerator {
                 for (relation, tuples) in partition {
                     temp_codegen.add_input_tuples(relation, tuples);
                 }
-                temp_codegen
-                    .generate_and_execute_tuples(&ir_clone)
-                    .unwrap_or_default()
+                // A failed partition fails the query, as the single-worker path does
+                temp_codegen.generate_and_execute_tuples(&ir_clone)
             })
-            .collect();
+            .collect::<Result<Vec<_>, String>>()?;
 
         // Merge and deduplicate results
         let mut combined: HashSet<Tuple> = HashSet::new();
@@ -1325,7 +1324,8 @@ impl CodeGenerator {
             IRNode::Join { .. } => true,
             IRNode::Distinct { input } => Self::contains_join(input),
             IRNode::Union { inputs } => inputs.iter().any(Self::contains_join),
-            IRNode::Aggregate { input, .. } => Self::contains_join(input),
+            // Per-group values need every partition: not partition-safe
+            IRNode::Aggregate { .. } => true,
             IRNode::Antijoin { .. } => true, // Antijoin is also a join-like operation
             IRNode::Compute { input, .. } => Self::contains_join(input),
             IRNode::FlatMap { input, .. } => Self::contains_join(input),
